@@ -53,6 +53,7 @@ ASSUMPTIONS = ["substitution cases are compared only for dictionaries on which t
 FLOORS = {"types_checked": (28, 28), "method_requests_matched": (106, 106), "graph_evaluations": (4000, 30000), "body_stack_checks": (1500, 20000),
           "backend_calls_under_request": (8000, 100000), "option_type_validations": (20000, 100000), "substitutions_compared": (1500, 6000),
           "substitution_changed_result": (800, 3000), "implementation_calls_matched": (100000, 1000000)}
+COVER = {"substitution_inner_blocks": ["none", "cache.disabled", "logging.disabled", "mapping-form", "pair-form"]}
 SHARDS_QUICK = 4
 
 
@@ -353,16 +354,29 @@ def substitution_case(ctx, program, o, did, tag):
             return canned
         return inner(request)
 
+    # the evaluation happens inside a further, unrelated block entered within the substituting one (handlers for other
+    # request types, mapping and pair form): the enclosing handler must keep serving
+    import contextlib
+
+    import labrea.cache
+    import labrea.logging
+    from labrea.logging import LogRequest
+
+    inners = {"none": contextlib.nullcontext, "cache.disabled": labrea.cache.disabled, "logging.disabled": labrea.logging.disabled,
+              "mapping-form": lambda: rt.handle({LogRequest: cur.handlers[LogRequest]}), "pair-form": lambda: rt.handle(LogRequest, cur.handlers[LogRequest])}
+    inner_name = sorted(inners)[int(spec_hash([program, o, did]), 16) % len(inners)]
     with rt.handle(EvaluateRequest, handler):
-        got = observe(G.root.evaluate, copy.deepcopy(o))
+        with inners[inner_name]():
+            got = observe(G.root.evaluate, copy.deepcopy(o))
+    ctx.cover("substitution_inner_blocks", inner_name)
     r = Ref(program)
     r.substitutes[str(did)] = canned
     exp = r.run(o)
     ctx.evaluations += 2
     ctx.count("substitutions_compared")
-    W = {"program": program, "options": o, "dataset": did, "source": tag}
+    W = {"program": program, "options": o, "dataset": did, "source": tag, "inner_block": inner_name}
     if got[0] != exp[0] or (got[0] == "ok" and got[1] != exp[1]):
-        ctx.violation("substitution-not-honoured", f"with dataset {did} substituted: {short(got)}, reference with that dataset as a constant: {short(exp)}", W)
+        ctx.violation("substitution-not-honoured", f"with dataset {did} substituted (evaluated inside an inner block: {inner_name}): {short(got)}, reference with that dataset as a constant: {short(exp)}", W)
         return
     if got != plain:
         ctx.count("substitution_changed_result")
